@@ -565,13 +565,31 @@ def rule_wprefix(roles, lm):
     return obs
 
 
-def _reaches_prefix_registry(prog, lm, uid):
-    """the body (transitively) locks the prefix-operator registry: a Mutex<HashMap<String, Arc<dyn Fn(Value) -> ..>>>"""
-    from analysis import LOCK_CALLS
+def _statics_reached(prog, uid):
+    """uids of statics referenced from the bodies reachable from uid"""
+    out = set()
     for bid in prog.reach([uid]):
-        for c in prog.by_id[bid].live_calls:
-            if c.callee in LOCK_CALLS and re.search(r'dyn std::ops::Fn\(value::Value\) ->', c.term['dest']['ty']):
-                return True
+        b = prog.by_id[bid]
+        for bb, i, pl, rv in b.assigns():
+            ops = [rv.get('op')] if rv['k'] in ('use', 'cast') else (rv.get('ops', []) if rv['k'] == 'agg' else [])
+            for o in ops:
+                if isinstance(o, dict) and o.get('k') == 'const' and 'static' in o:
+                    out.add(o['static'])
+        for c in b.live_calls:
+            for a in c.args:
+                if a.get('k') == 'const' and 'static' in a:
+                    out.add(a['static'])
+    return out
+
+
+def _reaches_prefix_registry(prog, lm, uid):
+    """the body (transitively) consults a unary-operator registry: a static whose map values are
+    handlers of one Value (prefix and postfix registries have the same type)"""
+    sid = {s['id']: s for s in prog.f.statics}
+    for su in _statics_reached(prog, uid):
+        s = sid.get(su)
+        if s is not None and re.search(r'dyn std::ops::Fn\(value::Value\) ->', s['ty']):
+            return True
     return False
 
 
